@@ -89,7 +89,7 @@ func (g *globAnalysis) labelsOf(v ssa.Value) label {
 }
 
 func isInit(fn *ssa.Function) bool {
-	return fn.Name() == "init" || strings.HasPrefix(fn.Name(), "init#") || fn.Synthetic == "package initializer"
+	return fname(fn) == "init" || strings.HasPrefix(fname(fn), "init#") || fn.Synthetic == "package initializer"
 }
 
 // findMutableGlobals classifies the module's package-level variables.
@@ -284,9 +284,9 @@ func externalMutator(f *ssa.Function) bool {
 	switch pk.Pkg.Path() {
 	case "sync", "sync/atomic", "bytes", "strings", "container/list", "container/heap", "container/ring", "bufio", "math/rand", "math/rand/v2":
 		// read-only accessors
-		switch f.Name() {
+		switch fname(f) {
 		case "Len", "String", "Bytes", "Cap", "Load", "Front", "Back", "Value", "Next", "Prev", "RLock", "RUnlock", "Lock", "Unlock", "TryLock", "Err":
-			return f.Name() == "Load" && false
+			return fname(f) == "Load" && false
 		}
 		return true
 	}
@@ -698,7 +698,7 @@ func (g *globAnalysis) localSinks(fn *ssa.Function) []sinkUse {
 			if exported {
 				for _, r := range rr(x) {
 					if l := g.labelsOf(r); l != 0 && !isPointerLikeType(r.Type()) {
-						out = append(out, sinkUse{x, "result of exported " + fn.Name(), l})
+						out = append(out, sinkUse{x, "result of exported " + fname(fn), l})
 					}
 				}
 			}
@@ -841,7 +841,7 @@ func ruleGLOB3(w *World) []Ob {
 		needs := map[*ssa.Function]map[int]string{}
 		isCacheGetter := func(c *ssa.Call) (ssa.Value, bool) {
 			f := c.Common().StaticCallee()
-			if f == nil || recvTypeName(f) != "Node" || (f.Name() != "branch" && f.Name() != "path") {
+			if f == nil || recvTypeName(f) != "Node" || (fname(f) != "branch" && fname(f) != "path") {
 				return nil, false
 			}
 			return c.Common().Args[0], true
@@ -878,7 +878,7 @@ func ruleGLOB3(w *World) []Ob {
 				if !ok || c.Common().StaticCallee() == nil || recvTypeName(c.Common().StaticCallee()) != "Node" {
 					return
 				}
-				n := c.Common().StaticCallee().Name()
+				n := fname(c.Common().StaticCallee())
 				if (n != "setBranch" && n != "setPath") || !sameVar(c.Common().Args[0], f.Params[0]) {
 					return
 				}
@@ -949,7 +949,7 @@ func ruleGLOB3(w *World) []Ob {
 					return
 				}
 				f := c.Common().StaticCallee()
-				if f == nil || recvTypeName(f) != "Node" || (f.Name() != "setBranch" && f.Name() != "setPath") {
+				if f == nil || recvTypeName(f) != "Node" || (fname(f) != "setBranch" && fname(f) != "setPath") {
 					return
 				}
 				n := c.Common().Args[0]
@@ -959,7 +959,7 @@ func ruleGLOB3(w *World) []Ob {
 				}
 				for _, e := range elems {
 					if fromGetterOn(e, n) {
-						sites = append(sites, site{fn, c, n, f.Name() + " extending the node's previous " + strings.TrimPrefix(f.Name(), "set"), strings.TrimPrefix(f.Name(), "set")})
+						sites = append(sites, site{fn, c, n, fname(f) + " extending the node's previous " + strings.TrimPrefix(fname(f), "set"), strings.TrimPrefix(fname(f), "set")})
 						return
 					}
 				}
